@@ -206,7 +206,44 @@ func pureStdCall(n *CallN) bool {
 
 // frozenMapSites: sites confirmed by reading whose order independence the classifier cannot see.
 // key: owner function + "#" + ranged expression (locals without numbering).
-var frozenMapSites = map[string]string{}
+var frozenMapSites = map[string]string{
+	"cmd/tlgen.runMain#namespaces":                                                        "each iteration writes an independent file '<ns>.tl' ('\"\"'→'__common', which cannot collide with an lc-ident namespace); content comes from 'PHPSplitTLByNamespaces' which is order-independent (see sites below); only the first I/O error returned varies.",
+	"internal/pure.Kernel.CompileBoolTL1#tip.instances":                                   "every instance gets the same two values ('tlType[0].Crc32()', 'tlType[1].Crc32()'); no cross-iteration state.",
+	"internal/pure.Kernel.Migration#allFiles":                                             "each iteration reads/writes only its own file; the dev-mode rename ('.tl'→'_migr.tl', '.tl2'→'_migr.tl2') is injective so targets never collide; 'written/notTouched' counters are commutative; only the first write error varies.",
+	"internal/pure.Kernel.getArgNamespace#argNamespaces":                                  "guarded by 'len(argNamespaces) == 1' – returns the single element of a 1-element map.",
+	"internal/pure.Kernel.resolveArgumentImpl#kt.tl1Names":                                "order affects only which error/warning is reported: picks an arbitrary name only to put a \"please use %s instead\" hint into a returned error (kernel_resolve.go:141-143).",
+	"internal/pure.Kernel.resolveArgumentImpl#kt.tl2Names":                                "order affects only which error/warning is reported: same as above for the TL2 hint (kernel_resolve.go:153-155); always returns an error.",
+	"internal/puregen.OutDir.Write#item.Code":                                             "each map entry is sent over a channel and written to its own file by a worker; counters are atomic/commutative; only which I/O error 'errgroup' returns (and the order of \"will not compile\" internal-error prints) varies.",
+	"internal/puregen/gengo.InternalNamespace.FindRecursiveImports#item.DirectImports.ns": "DFS visit order only changes which DFS parent is recorded in 'ri[n][0]'; the sole consumer (gengo.go:188-205) uses it to pick which member of a cycle to merge into, and repeated contraction always ends in the same partition (the SCCs); names are then derive…",
+	"internal/puregen/gengo.InternalNamespace.FindRecursiveImports#val2.DirectImports.ns": "'replace' is nil at both call sites (gengo.go:190, ins.go:164), so this loop never executes.",
+	"internal/puregen/gengo.InternalNamespace.findRecursiveImports#item.DirectImports.ns": "same DFS as the first FindRecursiveImports row: reachable key set of 'ri' is order-independent, recorded parent only selects a merge partner inside one SCC.",
+	"internal/puregen/gengo.genGo.generateCode#item.Namespaces":                           "each iteration sorts its own 'namespace.types' (SortFunc), sorts imports (gengo.go:349) and adds its own files 'tl<ns>/tl<ns>.go', 'tl<ns>/metamini.go' to the 'OutDir.Code' map; shared effects are only set inserts ('rawHandlerWhileList' usage marks).",
+	"internal/puregen/genphp.genphp.PhpMarkAllInternalTypes#internalReachable":            "only sets per-wrapper boolean flags to true, each derived from membership in precomputed reachability sets.",
+	"internal/puregen/genphp.genphp.PhpMarkAllInternalTypes#nonInternalReachable":         "same: monotone per-wrapper flag sets.",
+	"internal/puregen/genrust.genRust.generateCode#item.Namespaces":                       "'generateNamespacesCode' is a stub returning \"\" (genrust_generate.go:339), so every iteration 'continue's after sorting its own 'namespace.types'.",
+	"internal/tlcodegen.DirectIncludesCPP.sortedIncludesWithMap#item.ns":                  "'result' is built from 'includeNamesToTypes' (min over component ids – commutative) and sorted by (component, name) at type_rw.go:567; the order-dependent 'mapping' slices are discarded by every caller (type_rw.go:548, tlgen_lang_cpp.go:136).",
+	"internal/tlcodegen.Gen2.PHPSplitTLByNamespaces#item.Namespaces":                      "writes only 'result[s]' for its own key; 'typs' sorted (line 105), 'nsResult' deduped by name and sorted by the globally unique 'OriginalOrderIndex' (assigned in main2.go:215-220; synthetic index-0 combinators live in namespace \"\" which is skipped at line…",
+	"internal/tlcodegen.Gen2.PHPSplitTLByNamespaces#newNsVisited":                         "BFS level loop only inserts into the sets 'commonPartNsDependencies'/'nextNewNsVisited'; the result is the reachability closure of namespace \"\".",
+	"internal/tlcodegen.Gen2.PHPSplitTLByNamespaces#result":                               "per key, replaces each element by a shallow copy with 'Modifiers=[kphp]'; idempotent, so the backing array shared by all common namespaces ('result[ns] = commonPart') ends with the same content in any order.",
+	"internal/tlcodegen.Gen2.PhpMarkAllInternalTypes#internalReachable":                   "only sets per-wrapper boolean flags to true (tlgen_lang_php.go:402-410).",
+	"internal/tlcodegen.Gen2.PhpMarkAllInternalTypes#nonInternalReachable":                "same: monotone per-wrapper flag sets.",
+	"internal/tlcodegen.Gen2.WriteToDir#item.Code":                                        "each iteration writes its own file; 'cppRunLocalLinter' is a pure tab→spaces replace; counters commutative; only the order of '--print-diff' stdout chatter and the first I/O error vary.",
+	"internal/tlcodegen.Gen2.buildMapDescriptors#item.typeDescriptors":                    "order affects only which error/warning is reported: body only validates and inserts into map 'gen.singleConstructors'; iteration order decides the order of warnings printed to 'ErrorWriter' and which of several errors is returned first.",
+	"internal/tlcodegen.Gen2.createDependencies#val":                                      "per-'ns' DFS fills the set 'deps[ns]'; keys and values are sorted before emission (tlgen_lang_cpp.go:420-428).",
+	"internal/tlcodegen.Gen2.createDependencies#val[current]":                             "push order onto 'stack' only changes DFS visit order; the product is the transitive-closure set 'deps[ns]', later sorted.",
+	"internal/tlcodegen.Gen2.decideCppCodeDestinations#edges":                             "only mutates roots ('groupName==\"\"' and no incoming edges); 'decideGroupInConflict' reads group names of descendants only, which always have an incoming edge and are therefore never modified in this loop; 'front' is a set.",
+	"internal/tlcodegen.Gen2.genTypeTL2#argNamespaces":                                    "guarded by 'len(argNamespaces) == 1' – assigns the single element of a 1-element map.",
+	"internal/tlcodegen.Gen2.generateCodeCPP#detailsCpps":                                 "each iteration sorts its 'specs' (line 214), generates into local builders and adds its own file '<detailsFile>.cpp'; shared effects are set inserts ('cppAllInc.ns', 'createdDetailsCpps') and a counter; includes are emitted via 'sortedIncludes'.",
+	"internal/tlcodegen.Gen2.generateCodeCPP#detailsHpps":                                 "same structure: per-iteration sort (line 159), own file '<detailsHeader>.h', shared effects only the set 'createdDetailsHpps' (read after the loop) and a counter; no 'CPPGenerateCode' implementation mutates gen/wrapper state.",
+	"internal/tlcodegen.Gen2.generateType#argNamespaces":                                  "guarded by 'len(argNamespaces) == 1' – assigns the single element of a 1-element map.",
+	"internal/tlcodegen.checkNatUsages#functions":                                         "only set inserts into 'combinatorsNatFieldToAffectedBits'/'typeArgumentToAffectingCombinatorsNatFields' keyed by the function's own name; additionally 'checkNatUsages' feeds only 'CheckBackwardCompatibility' (lint mode, no code generated).",
+	"internal/tlcodegen.checkNatUsages#m2":                                                "each 'targetRef' is a distinct map key and every append in one call adds the same 'currentEdge'; the resulting path map is never read (no caller of 'GetArraySizeReferenceForField').",
+	"internal/tlcodegen.checkNatUsages#m2[*]":                                             "each 'field' is a distinct key receiving 'path+currentEdge'; path values are never consumed.",
+	"internal/tlcodegen.checkNatUsages#typeArgumentToAffectedTypeArgumentsWithPaths[typeName][*][key(typeArgumentToAffectedTypeArguments[typeName][*])]": "one assignment per distinct 'affectedNat' key; the path maps flow only into 'typeArgumentToArraySizeReference', whose accessor 'GetArgumentUsagesAsSize' has no callers.",
+	"internal/tlcodegen.checkNatUsages#typeArgumentToAffectedTypeArguments[typeName][*]":                                                                 "set-union copy of 'affectedType→nat' sets (line 468) plus the unread path maps; lint-only consumer reads only the bit/field sets.",
+	"internal/tlcodegen.processCombinators#existingTypes":                                                                                                "'reduce' only fills the local maps 'typeReductions'/'visitedTypes', which are discarded ('TypeReductions' field is commented out at tlgen.go:3009).",
+	"internal/tlcodegen.processCombinators#val":                                                                                                          "order changes 'Constructor.Id' and the order of 'TypeDefinition.Constructors' for unions, but 'Id' is never read and 'Constructors[0]' (tlgen.go:3228, 3248) is only reached for struct wrappers, i.e. single-constructor types; 'TypeArguments' is content-ident…",
+}
 
 func siteKey(owner, over string) string {
 	return owner + "#" + localNameRx.ReplaceAllString(over, "$1")
@@ -378,6 +415,7 @@ var ndAllowed = map[string]string{
 	"internal/tlast.parseTL2FuncDeclarationWithoutName": "random magic is only suggested inside a parse error message",
 	"internal/tlast.parseTL2TypeDeclarationWithoutName": "random magic is only suggested inside a parse error message",
 	"internal/tlast.parseTL2Combinator":                 "random magic is only suggested inside a parse error message",
+	"internal/tlast.TL.GenerateTLO/math/rand/v2.Uint32": "random magic is only suggested inside the 'collision in internal TLO hash' error message",
 }
 
 func determinismSources(c *Check, p *Program, reach map[*ssa.Function]bool) {
